@@ -28,7 +28,19 @@ func (t *instM) close(code uint32) {
 	}
 }
 
-type modelW struct{ A, B instM }
+// NReg: the name "n" is registered (an open instance started through nfn*). "m" is never registered after a step:
+// msec* instances are closed by the harness as soon as they have started.
+type modelW struct {
+	A, B instM
+	NReg bool
+}
+
+func (w *modelW) registry() string {
+	if w.NReg {
+		return "n=open m=nil"
+	}
+	return "n=nil m=nil"
+}
 
 type mfail struct{ class string }
 
@@ -171,9 +183,79 @@ func (w *modelW) step(l letter, k uint32) (string, uint32) {
 			class = "ok" // documented: "_start" exiting with code zero is not an error
 		}
 		ret = 0
+	case ShNFnA, ShNFnB, ShNFnSelf, ShMSecA, ShMSecB, ShMSecSelf:
+		return w.namedStart(l, k)
+	case ShLookup:
+		if !w.NReg {
+			return "no-module", 0
+		}
+		return "ok", 7
+	case ShCloseN:
+		if !w.NReg {
+			return "no-module", 0
+		}
+		w.NReg = false
+		return "ok", 0
 	}
 	if class != "ok" {
 		ret = 0
 	}
 	return class, ret
+}
+
+// namedStart mirrors the instantiation of "n" (start through ModuleConfig's "_start") or "m" (wasm start section).
+func (w *modelW) namedStart(l letter, k uint32) (string, uint32) {
+	sec := l.Shape >= ShMSecA
+	self := l.Shape == ShNFnSelf || l.Shape == ShMSecSelf
+	var t *instM
+	if !self {
+		t = &w.A
+		if shapes[l.Shape].target == 'B' {
+			t = &w.B
+		}
+		if t.Closed {
+			return "import-missing", 0 // imports are resolved first
+		}
+	}
+	if !sec && w.NReg {
+		return "name-taken", 0 // registration precedes the ModuleConfig start functions: nothing ran
+	}
+	var n instM // the new instance; only its closed state matters
+	var class string
+	if self {
+		_, class = w.call(&n, func() uint32 {
+			switch l.Kind {
+			case KOk:
+			case KUnreachable:
+				panic(mfail{"trap:unreachable"})
+			case KPanicError:
+				panic(mfail{"panic:error"})
+			case KProcExit0, KProcExit3:
+				code := uint32(0)
+				if l.Kind == KProcExit3 {
+					code = 3
+				}
+				n.close(code) // the calling module of proc_exit is the new instance
+				panic(mfail{fmt.Sprintf("exit:%d", code)})
+			case KClose0:
+				n.close(0)
+			case KClose7:
+				n.close(7)
+			}
+			return 0
+		})
+	} else {
+		_, class = w.call(&n, func() uint32 { return w.direct(t, l.Kind, k) })
+	}
+	switch {
+	case class == "ok":
+		if sec {
+			return "ok", 1 // started, then closed by the harness
+		}
+		w.NReg = true
+		return "ok", 1
+	case class == "exit:0" && !sec:
+		return "ok", 2 // documented: "_start" exiting with code zero is success; the returned module is closed
+	}
+	return class, 0 // failed or exited start: the new instance is closed and its name is free
 }
